@@ -180,3 +180,22 @@ Definition c19_check_alg (c : case) (stored : result) (summ : list ((Z * Z) * (Z
 (* malformed arguments: the model's error class *)
 Definition c19_alg_rejects (c : case) : bool :=
   match ibd_records c with Err _ => true | _ => false end.
+
+(* the Python facade observed on the C result = the facade model on the algorithm model's container:
+   probes = requested pairs with the observed len() of result[(a,b)] (None = KeyError), both orders *)
+Definition probe_ok (st : store) (a b : Z) (on : option Z) : bool :=
+  match py_getitem st a b, on with
+  | PyOk p, Some n => py_list_len p =? n
+  | PyKeyError, None => true
+  | _, _ => false
+  end.
+
+Definition c19_check_facade (c : case) (probes : list (Z * Z * option Z)) (npairs : Z) : bool :=
+  match ibd_alg c true true, ibd_alg c false false with
+  | Ok st, Ok st0 =>
+      forallb (fun p => probe_ok st (fst (fst p)) (snd (fst p)) (snd p) && probe_ok st (snd (fst p)) (fst (fst p)) (snd p)) probes
+      && match py_num_pairs st with PyOk n => n =? npairs | _ => false end
+      && match py_num_pairs st0, py_pairs st0 with PyPairsNotStored, PyPairsNotStored => true | _, _ => false end
+      && match py_pairs st with PyOk ks => (zlen ks =? npairs) | _ => false end
+  | _, _ => false
+  end.
